@@ -110,6 +110,7 @@ INH_ASSUME = EVAL_COMMON_ASSUME + [
 ]
 prop("C03", engine="inh", worker="make_inh_trace", prefixes=["C03."], level="model_checking",
      mc=("MxInherit", "MC_MxInherit_quick.cfg", "MC_MxInherit_thorough.cfg"),
+     mc_deep="MC_MxInherit_deep.cfg",
      mbt_opts={"deep": True, "checkdefs": True, "handles": True},
      jobs=lambda tier: [("inherit", dict()), ("delete", dict())],
      quick=dict(traces=160, nops=25), thorough=dict(traces=4000, nops=40),
@@ -336,6 +337,20 @@ def run_mc(cfg, tier, seed):
         inst = instances.write_instance(module, tier, ipath, seed)
         env = {"MC_INSTANCE": ipath}
         r = tlc.run_tlc(module, cfg=cfgfile, env=env, workers=NCPU, timeout=3000 if tier == "quick" else 14400)
+        deep = cfg.get("mc_deep")
+        if deep and tier == "thorough":
+            # one level deeper on the smaller (quick) vocabulary
+            fd2, ipath2 = tempfile.mkstemp(prefix="mxv_inst_", suffix=".json")
+            os.close(fd2)
+            try:
+                instances.write_instance(module, "quick", ipath2, seed)
+                r2 = tlc.run_tlc(module, cfg=deep, env={"MC_INSTANCE": ipath2}, workers=NCPU, timeout=14400)
+            finally:
+                os.unlink(ipath2)
+            r["deep"] = {k: r2.get(k) for k in ("states", "transitions", "depth", "wall_s", "ok")}
+            r["ok"] = bool(r.get("ok")) and bool(r2.get("ok"))
+            r["states"] = (r.get("states") or 0) + (r2.get("states") or 0)
+            r["transitions"] = (r.get("transitions") or 0) + (r2.get("transitions") or 0)
         # spec -> code: every history of MaxOps operations (BFS, exhaustive)
         mbtcfg = "MBT_%s.cfg" % module
         rb = tlc.run_tlc(module, cfg=mbtcfg, env=env, workers=NCPU, timeout=3000 if tier == "quick" else 7200)
@@ -481,7 +496,7 @@ def run_eval(pid, tier, seed):
         "exhaustive": False,
     }
     if mc is not None:
-        cov["design_model_check"] = {k: mc.get(k) for k in ("states", "transitions", "depth", "wall_s", "ok", "mbt")}
+        cov["design_model_check"] = {k: mc.get(k) for k in ("states", "transitions", "depth", "wall_s", "ok", "mbt", "deep") if k != "deep" or mc.get("deep")}
         if mc.get("states"):
             cov["states"] += mc["states"]
             cov["transitions"] += mc.get("transitions") or 0
